@@ -57,7 +57,7 @@ def make_increments(case, pva):
     return om, C.T @ f_n
 
 
-def inc_table(om, fb, dt, n, level=False):
+def inc_table(om, fb, dt, n, level=False, t0=0.0):
     """Constant body rate; specific force constant in the body frame, or (level=True, used in the no-altitude mode, whose
     model presumes vertical force balance) constant in the navigation frame: f_b(t) = exp(-om t) fb at mid-interval.
     dt may be a scalar (n equal intervals) or an array of n interval lengths."""
@@ -70,7 +70,7 @@ def inc_table(om, fb, dt, n, level=False):
     else:
         dv = fb[None, :] * dts[:, None]
     return pd.DataFrame(np.column_stack([dts, om[None, :] * dts[:, None], dv]),
-                        index=pd.Index(t, name='time'), columns=INC)
+                        index=pd.Index(t0 + t, name='time'), columns=INC)
 
 
 def to_state(x9, wa):
@@ -265,6 +265,7 @@ def prop_strategy():
         'with_altitude': st.booleans(),
         'edir': st.lists(st.floats(-1, 1), min_size=15, max_size=15),
         'sub': st.integers(0, 2 ** 31 - 1),
+        't0': st.sampled_from([0.0, 0.0, 500.0, -25.0]),          # the record's time origin (the motion is the same)
     })
 
 
@@ -283,7 +284,8 @@ def run_propagate(case, ctx):
     from pyins import error_model, strapdown, sim
     from scipy.linalg import expm
     wa = case['with_altitude']
-    pva = gen.to_pva({k: case[k] for k in ('lat', 'lon', 'alt', 'speed', 'vdir', 'roll', 'pitch', 'heading')}, 0.0)
+    t0 = case.get('t0', 0.0)
+    pva = gen.to_pva({k: case[k] for k in ('lat', 'lon', 'alt', 'speed', 'vdir', 'roll', 'pitch', 'heading')}, t0)
     if not wa:
         pva['VD'] = 0.0
     rng = np.random.RandomState(case['sub'])
@@ -301,8 +303,9 @@ def run_propagate(case, ctx):
     else:
         dts = np.full(n, dt)
         ctx.label('sampling=uniform')
-    inc = inc_table(om, C.T @ f_n, dts, n, level=True)
-    inc_h = inc_table(om, C.T @ f_n, np.repeat(dts / 2, 2), 2 * n, level=True)     # same motion at half the IMU interval
+    inc = inc_table(om, C.T @ f_n, dts, n, level=True, t0=t0)
+    inc_h = inc_table(om, C.T @ f_n, np.repeat(dts / 2, 2), 2 * n, level=True, t0=t0)     # same motion at half the IMU interval
+    ctx.label('t0=0' if t0 == 0 else 't0!=0')
     nom = ctx.sut(strapdown.Integrator(pva, wa).integrate, inc)
     nom_h = strapdown.Integrator(pva, wa).integrate(inc_h)
     v = float(np.linalg.norm(nom[EC.VEL].values.astype(float), axis=1).max())
@@ -334,7 +337,7 @@ def run_propagate(case, ctx):
     for s in (1.0, 0.1):
         err = pd.Series(e0 * s, index=gen.ERR_COLS)
         start = ctx.sut(sim.perturb_pva, pva, err)
-        start.name = 0.0
+        start.name = t0
         ip = inc.copy()
         mid = 0.5 * (t_rows[1:] + t_rows[:-1])
         ip[INC[1:4]] += ge * s * (dts * shape_t(mid))[:, None]
